@@ -67,6 +67,9 @@ type spec struct {
 	verbose          bool // buffer.Verbose(true) with a formatting logger
 	formCT           bool // the request declares Content-Type: application/x-www-form-urlencoded
 	upgradeHdr       bool // the request asks for a protocol switch (Connection: Upgrade, Upgrade: websocket)
+	piecewise        bool // the request body arrives in pieces, the first ending exactly at the limit
+	nilErrHandler    bool // buffer.ErrorHandler(nil) is among the options
+	expect100        bool // the request carries Expect: 100-continue
 	copyMode         bool // the handler streams its body with io.Copy from a plain reader
 	abort            bool // the handler panics (http.ErrAbortHandler) after writing
 }
@@ -97,6 +100,9 @@ func genSpec(t *rapid.T) *spec {
 	s.method = rapid.SampledFrom([]string{"GET", "POST", "POST", "HEAD", "PUT", "PATCH"}).Draw(t, "method")
 	s.formCT = rapid.IntRange(0, 2).Draw(t, "formContentType") == 0
 	s.upgradeHdr = rapid.IntRange(0, 5).Draw(t, "upgradeHeaders") == 0
+	s.piecewise = rapid.IntRange(0, 2).Draw(t, "piecewiseBody") == 0
+	s.nilErrHandler = rapid.IntRange(0, 4).Draw(t, "nilErrorHandler") == 0
+	s.expect100 = rapid.IntRange(0, 4).Draw(t, "expect100") == 0
 	s.memReq = rapid.SampledFrom([]int64{1, 16, 512, 4096}).Draw(t, "memReq")
 	switch rapid.IntRange(0, 4).Draw(t, "maxReqKind") {
 	case 0:
@@ -177,7 +183,7 @@ func genSpec(t *rapid.T) *spec {
 }
 
 func (s *spec) String() string {
-	return fmt.Sprintf("%s reqBody=%d chunked=%v memReq=%d maxReq=%d | memResp=%d maxResp=%d status=%d writes=%v retry=%q failFirst=%d explicitCL=%v copyMode=%v abort=%v h2style=%v verbose=%v formCT=%v upgradeHdr=%v", s.method, s.reqBody, s.chunked, s.memReq, s.maxReq, s.memResp, s.maxResp, s.status, s.writes, s.retry, s.failFirst, s.explicitCL, s.copyMode, s.abort, s.h2style, s.verbose, s.formCT, s.upgradeHdr)
+	return fmt.Sprintf("%s reqBody=%d chunked=%v memReq=%d maxReq=%d | memResp=%d maxResp=%d status=%d writes=%v retry=%q failFirst=%d explicitCL=%v copyMode=%v abort=%v h2style=%v verbose=%v formCT=%v upgradeHdr=%v piecewise=%v nilErrHandler=%v expect100=%v", s.method, s.reqBody, s.chunked, s.memReq, s.maxReq, s.memResp, s.maxResp, s.status, s.writes, s.retry, s.failFirst, s.explicitCL, s.copyMode, s.abort, s.h2style, s.verbose, s.formCT, s.upgradeHdr, s.piecewise, s.nilErrHandler, s.expect100)
 }
 
 // formatLogger formats its arguments like a real logger.
@@ -189,6 +195,35 @@ func (formatLogger) Warn(f string, a ...interface{})  { _ = fmt.Sprintf(f, a...)
 func (formatLogger) Error(f string, a ...interface{}) { _ = fmt.Sprintf(f, a...) }
 
 type onlyReader struct{ r io.Reader }
+
+// pieceReader hands its data out in pieces of the given sizes (then whatever is asked for), the
+// way a body arrives from a client that flushes chunk by chunk.
+type pieceReader struct {
+	data   []byte
+	pieces []int
+}
+
+func (p *pieceReader) Read(b []byte) (int, error) {
+	if len(p.data) == 0 {
+		return 0, io.EOF
+	}
+	n := len(b)
+	if len(p.pieces) > 0 {
+		if p.pieces[0] < n {
+			n = p.pieces[0]
+		}
+		p.pieces[0] -= n
+		if p.pieces[0] == 0 {
+			p.pieces = p.pieces[1:]
+		}
+	}
+	if n > len(p.data) {
+		n = len(p.data)
+	}
+	copy(b, p.data[:n])
+	p.data = p.data[n:]
+	return n, nil
+}
 
 func (o onlyReader) Read(p []byte) (int, error) { return o.r.Read(p) }
 
@@ -275,13 +310,34 @@ func TestC15_LimitsAndTempFiles(t *testing.T) {
 		if s.verbose {
 			opts = append(opts, buffer.Verbose(true), buffer.Logger(formatLogger{}))
 		}
+		if s.nilErrHandler { // "no handler of my own": the buffer's default one stays in charge
+			opts = append(opts, buffer.ErrorHandler(nil))
+		}
 		b, err := buffer.New(handler, opts...)
 		if err != nil {
 			t.Fatalf("buffer.New: %v (%s)", err, s)
 		}
-		req := httptest.NewRequest(s.method, "http://front/x", onlyReader{bytes.NewReader(reqBody)})
+		var bodyReader io.Reader = onlyReader{bytes.NewReader(reqBody)}
+		if s.piecewise {
+			// the first piece ends exactly at the request limit (or at the memory threshold), the
+			// rest comes in small pieces
+			first := int(s.maxReq)
+			if first <= 0 || first >= len(reqBody) {
+				first = int(s.memReq)
+			}
+			pieces := []int{}
+			if first > 0 && first < len(reqBody) {
+				pieces = append(pieces, first)
+			}
+			pieces = append(pieces, 1, 7, 512)
+			bodyReader = &pieceReader{data: reqBody, pieces: pieces}
+		}
+		req := httptest.NewRequest(s.method, "http://front/x", bodyReader)
 		if s.formCT {
 			req.Header.Set("Content-Type", "application/x-www-form-urlencoded")
+		}
+		if s.expect100 {
+			req.Header.Set("Expect", "100-continue")
 		}
 		if s.upgradeHdr { // still a request with a body and a response: the limits apply
 			req.Header.Set("Connection", "keep-alive, Upgrade")
